@@ -76,6 +76,7 @@ def deserialize_compact(
     key = guess_key(public_key, obj)
     key.check_use("sig")
     alg = registry.get_alg(headers["alg"])
+    alg.check_key_type(key)
 
     signing_input = obj.segments["header"] + b"." + obj.payload
     sig = urlsafe_b64decode(obj.segments["signature"])
